@@ -61,28 +61,29 @@ MaxHexCharsOf(w) == (w \div 4) - 1
 
 IsDigitSeq(s) == \A i \in 1..Len(s) : s[i] \in 0..9
 \* "the non-empty ASCII decimal strings whose value fits in an int"
-FitsW(s, w) == s # <<>> /\ IsDigitSeq(s) /\ DLeq(s, MaxIntDigits(w))
+\* (m = the digits of MaxInt; passed in so that TLC computes them once, not per call)
+FitsD(s, m) == s # <<>> /\ IsDigitSeq(s) /\ DLeq(s, m)
 
 \* ---- reference for parseUintBuf on symbol strings (digits 0..9, anything else = non-digit)
 RECURSIVE DigitPrefixLen(_, _)
 DigitPrefixLen(s, i) == IF i > Len(s) \/ s[i] \notin 0..9 THEN i - 1 ELSE DigitPrefixLen(s, i + 1)
 \* shortest prefix length whose value does not fit (0 if the whole digit prefix fits)
 RECURSIVE FirstOverflow(_, _, _, _)
-FirstOverflow(s, j, n, w) == IF j > n THEN 0
-                             ELSE IF ~DLeq(SubSeq(s, 1, j), MaxIntDigits(w)) THEN j
-                             ELSE FirstOverflow(s, j + 1, n, w)
+FirstOverflow(s, j, n, m) == IF j > n THEN 0
+                             ELSE IF ~DLeq(SubSeq(s, 1, j), m) THEN j
+                             ELSE FirstOverflow(s, j + 1, n, m)
 
 \* result record [ok, val (canonical digits or <<>>), n (bytes consumed), err]
-RefParseBuf(s, w) ==
+RefParseBuf(s, m) ==
   IF s = <<>> THEN [ok |-> FALSE, val |-> <<>>, n |-> 0, err |-> "empty"]
   ELSE LET p == DigitPrefixLen(s, 1) IN
     IF p = 0 THEN [ok |-> FALSE, val |-> <<>>, n |-> 0, err |-> "first"]
-    ELSE LET o == FirstOverflow(s, 1, p, w) IN
+    ELSE LET o == FirstOverflow(s, 1, p, m) IN
       IF o = 0 THEN [ok |-> TRUE, val |-> Strip(SubSeq(s, 1, p)), n |-> p, err |-> "nil"]
       ELSE [ok |-> FALSE, val |-> <<>>, n |-> o - 1, err |-> "toolong"]
 
 \* ParseUint = parseUintBuf + "everything was consumed"
-RefParseUint(s, w) == LET r == RefParseBuf(s, w) IN
+RefParseUint(s, m) == LET r == RefParseBuf(s, m) IN
   IF r.ok /\ r.n = Len(s) THEN [ok |-> TRUE, val |-> r.val] ELSE [ok |-> FALSE, val |-> <<>>]
 
 \* ---- reference for readHexInt on symbol strings (0..15 hex digits, anything else = other)
@@ -92,10 +93,11 @@ RECURSIVE StripH(_)
 StripH(s) == IF Len(s) <= 1 THEN (IF s = <<>> THEN <<0>> ELSE s)
              ELSE IF s[1] = 0 THEN StripH(Tail(s)) ELSE s
 \* [ok, val (canonical hex digits), n (digits consumed; the terminator is left unread)]
-RefReadHex(s, w) ==
+\* (mh = maxHexIntChars)
+RefReadHex(s, mh) ==
   LET p == HexPrefixLen(s, 1) IN
   IF p = 0 THEN [ok |-> FALSE, val |-> <<>>, n |-> 0]
-  ELSE IF p > MaxHexCharsOf(w) THEN [ok |-> FALSE, val |-> <<>>, n |-> MaxHexCharsOf(w)]
+  ELSE IF p > mh THEN [ok |-> FALSE, val |-> <<>>, n |-> mh]
   ELSE [ok |-> TRUE, val |-> StripH(SubSeq(s, 1, p)), n |-> p]
 
 =============================================================================
